@@ -1,9 +1,10 @@
-import SqlProofs.DelimR.Align
+import SqlProofs.DelimChild.Reindent.Align
 /-!
-# SqlProofs.DelimR.Bodies — `BodyOK` for the bodies of the loop passes
+# SqlProofs.DelimChild.Reindent.Bodies — `BodyOK` for the bodies of the loop passes
 -/
 namespace Sql
-namespace DC
+namespace DCR
+open DC
 
 variable {u : Text → Text}
 
@@ -178,5 +179,5 @@ theorem bodyOK_align (hu : DelimU u) : BodyOK u .s .t (alignCommentsBody u) := b
       subst hy; exact dtrig_align hu hf.cd
     · intro hw; cases hw
 
-end DC
+end DCR
 end Sql
